@@ -88,6 +88,7 @@ class QueueRecorder:
         self.label = label
         self.items: List[Dict[str, Any]] = []      # one per put
         self._live: List[Dict[str, Any]] = []      # FIFO mirror
+        self.empty_pops: List[Dict[str, Any]] = []
         orig_put = queue.put_nowait
         orig_pop = queue.pop
         rec = self
@@ -115,6 +116,7 @@ class QueueRecorder:
                     rec._live[0]["head_stall"] = w.clock.stall_total_ns
             else:
                 w.log.add("q-pop-empty", label, task_name())
+                rec.empty_pops.append({"t": w.now(), "by": task_name()})
             return orig_pop()
 
         queue.put_nowait = put_nowait
